@@ -133,7 +133,7 @@ pub fn replay_witness(w: &Witness, property: &str) -> (Vec<Viol>, Value, Value) 
     let mut run = |world: &mut World, evs: &[Event], phase: &str, log: &mut Vec<Value>, viols: &mut Vec<Viol>| {
         for ev in evs {
             let what = match ev {
-                Event::Deliver(k) | Event::DeliverDup(k) | Event::Drop(k) | Event::Defer(k) | Event::Delay(k) => world.net.get(*k as usize).map(crate::world::describe_packet).unwrap_or_default(),
+                Event::Deliver(k) | Event::DeliverDup(k) | Event::Drop(k) | Event::Defer(k) | Event::Delay(k) | Event::Hold(k) => world.net.get(*k as usize).map(crate::world::describe_packet).unwrap_or_default(),
                 _ => String::new(),
             };
             let r = world.apply(*ev).unwrap_or_else(|e| engine::machinery_failure(&format!("replay: event {} not enabled: {e}", ev.to_text())));
@@ -268,7 +268,7 @@ pub fn build_base(name: &'static str, script: &[Step]) -> Base {
             Step::Settle => {
                 let mut n = 0;
                 loop {
-                    let quiet = w.net.is_empty() && w.delayed.is_empty();
+                    let quiet = w.net.is_empty() && w.delayed.is_empty() && w.held.is_empty();
                     let iso = w.isolated.map(|x| x as usize);
                     let live: Vec<usize> = (0..N).filter(|i| Some(*i) != iso).collect();
                     let leaders: Vec<usize> = live.iter().cloned().filter(|&i| w.is_leader(i)).collect();
@@ -312,6 +312,10 @@ pub fn bases(thorough: bool) -> Vec<Base> {
         // node 0 wins the first election with node 1's vote only (its Vote request to node 2 is lost) and is cut
         // off at once; the others elect again; still partitioned (both sides may take client appends)
         build_base("winner-of-a-one-vote-election-cut-off-others-reelected", &[Default(6), Ev(Drop(0)), Default(2), Ev(Isolate(0)), UntilLeaderOtherThan(0)]),
+        // the same, and the cut-off winner has taken a client append that it cannot replicate
+        build_base("winner-of-a-one-vote-election-cut-off-with-an-append-others-reelected", &[Default(6), Ev(Drop(0)), Default(2), Ev(Isolate(0)), UntilLeaderOtherThan(0), AppendAt(0)]),
+        // candidate 0 has been granted node 1's vote but the reply is stuck in the network; its Vote request to node 2 was lost
+        build_base("candidate-with-one-vote-reply-stuck-in-the-network", &[Default(6), Ev(Drop(0)), Ev(Hold(0))]),
         // a follower was cut off while an entry was committed; it rejoins now
         build_base("lagging-follower-rejoins", &[Settle, Ev(Isolate(2)), AppendAtLeader, Settle, Ev(Heal)]),
     ];
@@ -536,6 +540,7 @@ pub fn deviations(w: &World, cfg: &E2Cfg, base_appends: u8) -> Vec<Event> {
         d.push(Event::Drop(0));
         d.push(Event::DeliverDup(0));
         d.push(Event::Delay(0));
+        d.push(Event::Hold(0));
         if w.net.len() >= 2 {
             d.push(Event::Defer(0));
         }
@@ -543,6 +548,9 @@ pub fn deviations(w: &World, cfg: &E2Cfg, base_appends: u8) -> Vec<Event> {
         for i in 0..N {
             d.push(Event::Skew(i as u8));
         }
+    }
+    if !w.held.is_empty() {
+        d.push(Event::Release);
     }
     match w.isolated {
         None => {
